@@ -1,8 +1,8 @@
 \* C41 thorough: legacy density resolution, all (context, a, b) over ratio tips
 CONSTANT MaxBN = 1
-CONSTANT MaxVRF = 1
+CONSTANT MaxVRF = 0
 CONSTANT MaxSlot = 1
-CONSTANT ForkSlots = {0, 2}
+CONSTANT ForkSlots = {1}
 CONSTANT Windows = {0}
 CONSTANT DepthSet = "min"
 CONSTANT TrimShallow = TRUE
@@ -12,7 +12,7 @@ CONSTANT TipKind = "ratio"
 CONSTANT RBlocks = {1, 2, 3}
 CONSTANT SpanBases = {3, 1000, 1000000, 300000000}
 CONSTANT SpanMults = {1, 2}
-CONSTANT SpanOffsets = {-1, 0, 1, 200}
+CONSTANT SpanOffsets <- OffsetsAround
 CONSTANT ResRoot = 31623
 INIT Init
 NEXT Next
